@@ -2,7 +2,8 @@
 """Runs every behaviour-preserving variant (neutral/<id>/patch.diff) against
 all checks on a scratch copy of /repo.  Every check must stay silent: exit 0
 is right, exit 2 (analysis broken: an anchor moved, re-confirm the tables) is
-tolerated and listed, exit 1 is a false alarm and fails this tool."""
+tolerated and listed, exit 1 is a false alarm and fails this tool.
+NEUTRAL_PROPS="C01 C15" restricts the checks (result.json is then left alone), NEUTRAL_JOBS sets the parallelism."""
 import json, os, shutil, subprocess, sys, tempfile
 from concurrent.futures import ThreadPoolExecutor
 HERE = os.path.dirname(os.path.dirname(os.path.abspath(__file__)))
@@ -20,7 +21,7 @@ def run(nid):
             return nid, {"error": "patch does not apply: " + r.stdout + r.stderr}
         env = dict(os.environ, LCDB_REPO=d, LCDB_SCRATCH_OF="/repo")
         out = {}
-        for p in sorted(CLAIMS):
+        for p in (os.environ.get("NEUTRAL_PROPS", "").split() or sorted(CLAIMS)):
             r = subprocess.run([sys.executable, "-m", "sa.core", p, "--no-evidence"], cwd=HERE, env=env, capture_output=True, text=True)
             if r.returncode != 0:
                 lines = [l for l in r.stdout.splitlines() if "violated: rule=" in l or "ANALYSIS-BROKEN" in l or "broken" in l.lower()]
@@ -34,13 +35,14 @@ def main():
     ids = [x for x in sorted(os.listdir(os.path.join(HERE, "neutral"))) if os.path.isdir(os.path.join(HERE, "neutral", x))]
     ids = [x for x in ids if not only or x in only]
     alarms = 0
-    with ThreadPoolExecutor(5) as ex:
+    with ThreadPoolExecutor(int(os.environ.get("NEUTRAL_JOBS", "5"))) as ex:
         for nid, res in ex.map(run, ids):
             if "error" in res:
                 print("%-28s ERROR %s" % (nid, res["error"])); alarms += 1; continue
             fa = {p: v for p, v in res.items() if v["exit"] == 1}
             br = {p: v for p, v in res.items() if v["exit"] not in (0, 1)}
-            json.dump({"variant": nid, "false_alarms": fa, "analysis_broken": br}, open(os.path.join(HERE, "neutral", nid, "result.json"), "w"), indent=1)
+            if not os.environ.get("NEUTRAL_PROPS"):
+                json.dump({"variant": nid, "false_alarms": fa, "analysis_broken": br}, open(os.path.join(HERE, "neutral", nid, "result.json"), "w"), indent=1)
             print("%-28s %s%s" % (nid, "silent" if not fa else "FALSE-ALARM " + ",".join(sorted(fa)),
                                    (" broken:" + ",".join(sorted(br))) if br else ""))
             for p, v in list(fa.items()) + list(br.items()):
